@@ -7,7 +7,14 @@ register them), measures its length against the geometry the map was created wit
 implements array / per-CPU / hash / prog-array map semantics with a configurable number
 of possible CPUs, and records a violation on the first call whose buffer is too short.
 The real API entry points are then driven on randomly declared maps; command, buffer
-lengths and geometry of every call are compared with the Lean model `Ebv.MapCalls`."""
+lengths and geometry of every call are compared with the Lean model `Ebv.MapCalls`.
+
+Family cases: a map descriptor is a class-level object shared by all instances of a class, of
+its subclasses and of the same class given other sub-programs, while each instance creates a
+map of its own geometry.  Base/derived classes (adding variables, overriding the Dict) and
+sub-program classes are built around one descriptor, 2..5 instances are created in any order,
+all kept alive and used afterwards; every command of every instance must go to that instance's
+own map and pass buffers sized for the geometry its own declaration implies."""
 import asyncio
 import contextlib
 import ctypes
@@ -25,6 +32,8 @@ DRIVER = "Drivers/C10.lean"
 THEOREMS = [
     "Ebv.C10.C10", "Ebv.C10.C10_exact", "Ebv.C10.geometry_positive", "Ebv.C10.percpu_read_exact",
     "Ebv.C10.hashvar_get_needs_eight", "Ebv.C10.mmap_within_value", "Ebv.C10.no_map_no_calls", "Ebv.C10.percpu_online_too_short",
+    "Ebv.C10.C10_instances", "Ebv.C10.runHist_eq_spec", "Ebv.C10.use_calls_own", "Ebv.C10.percpu_shared_size_too_short",
+    "Ebv.C10.percpu_shared_size_refuted",
 ]
 TRUSTED = ["hand-written model Ebv.MapCalls of the buffer lengths and create_map geometry of every user-space map entry point, tied by exact "
            "correspondence (command, key length, value length, geometry, mmap length) with the real API driven under an emulated kernel",
@@ -33,11 +42,16 @@ TRUSTED = ["hand-written model Ebv.MapCalls of the buffer lengths and create_map
 ASSUMPTIONS = ["the kernel reads/writes exactly key_size / value_size bytes (per-CPU: roundup8(value_size) x possible CPUs) behind the pointers of "
                "BPF_MAP_LOOKUP/UPDATE/DELETE/GET_NEXT_KEY (uapi contract); a NULL key is allowed for GET_NEXT_KEY only",
                "Structure.data keeps the length the constructor / the library gave it (users do not assign shorter buffers)",
-               "register_sync_group is driven on the program array FastEtherCat.connect creates (bus and XDP attach stubbed), randrange scripted"]
+               "register_sync_group is driven on the program array FastEtherCat.connect creates (bus and XDP attach stubbed), randrange scripted",
+               "families: derived classes do not declare further variables on an inherited HashMap (HashMap.init then fails for the base class with "
+               "AttributeError before any map command: reported, not a buffer question); a sub-program object belongs to one program"]
 RULE = ("declarations: array / per-CPU maps with 1..8 variables of any format (possible CPUs 1..130 independent of os.cpu_count(), online <= possible), "
         "hash-variable sets (1..8 variables, all formats incl. x; one 257-variable set), Dicts with 1..6 packed members per structure, sizes 1..40, "
         "lru or not, the program array; call sequences of 1..14 API calls (set/get, read, load/get/set, setitem/getitem/pop/del/iter, register with "
-        "0..3 occupied slots); non-trivial = at least one bpf() map command issued")
+        "0..3 occupied slots); non-trivial = at least one bpf() map command issued; families: one shared array / per-CPU / hash-variable / Dict "
+        "descriptor, base class with 0..3 variables, 0..2 derived classes adding 1..4 variables (Dict: overriding key/value/size/lru), 0..2 "
+        "sub-program classes with 1..3 variables, 2..5 live instances (class x sub-program multiset) in any creation order, 1..14 calls on any of "
+        "them, plus all ordered pairs of five shapes; per-CPU contents distinct per CPU")
 
 CMD = {0: "create", 1: "lookup", 2: "update", 3: "delete", 4: "next", 5: "prog_load", 21: "lookup_delete"}
 T_HASH, T_ARRAY, T_PROG_ARRAY, T_PERCPU_ARRAY, T_LRU_HASH = 1, 2, 3, 6, 9
@@ -739,6 +753,318 @@ def run_progarray(K, case, attempt):
             E.EtherXDP.attach = saved[1]
 
 
+# ---- several live instances around one shared map descriptor ------------------------
+# A map is declared once per class: the descriptor object is shared by all instances of the
+# class, of its subclasses and of the same class given other sub-programs, while every
+# instance creates a map of its own geometry.  A family case builds the classes, creates the
+# listed instances in the listed order, keeps all of them alive and then uses them.
+
+def inst_fmts(fam, inst):
+    """declared fact: the variables instance `inst` owns on the shared array map"""
+    out = [("e", f"v{j}", f) for j, f in enumerate(fam["base"])]
+    k = inst["cls"]
+    if k:
+        out += [("e", f"d{k - 1}_{j}", f) for j, f in enumerate(fam["derived"][k - 1])]
+    for pos, m in enumerate(inst["subs"]):
+        out += [(pos, f"s{m}_{j}", f) for j, f in enumerate(fam["subs"][m])]
+    return out
+
+
+def inst_dict(fam, inst):
+    k = inst["cls"]
+    d = fam["derived"][k - 1] if k else None
+    return d or fam["base"]
+
+
+def build_family(fam):
+    """[Base, Derived0, ...], [Sub0, ...], shared descriptor (class creation may raise)"""
+    from ebpfcat.ebpf import EBPF, SubProgram
+    from ebpfcat.arraymap import ArrayMap, PerCPUArrayMap
+    from ebpfcat.hashmap import HashMap, Dict
+    kind = fam["map"]
+
+    def program(self):
+        self.r0 = 2
+        self.exit()
+    ns, subs, mp = {"program": program}, [], None
+    if kind in ("array", "percpu"):
+        mp = ArrayMap() if kind == "array" else PerCPUArrayMap()
+        ns["amap"] = mp
+        for j, f in enumerate(fam["base"]):
+            ns[f"v{j}"] = mp.globalVar(f)
+    elif kind == "hashvars":
+        mp = HashMap()
+        ns["hmap"] = mp
+        for j, (f, d) in enumerate(fam["base"]):
+            ns[f"hv{j}"] = mp.globalVar(f, d)
+    else:
+        b = fam["base"]
+        ns["tbl"] = Dict(make_structure("Key", b["key"]), make_structure("Value", b["value"]), size=b["size"], lru=b["lru"])
+    classes = [type("Base", (EBPF,), ns)]
+    for k, d in enumerate(fam.get("derived", [])):
+        dns = {}
+        if kind in ("array", "percpu"):
+            for j, f in enumerate(d):
+                dns[f"d{k}_{j}"] = mp.globalVar(f)
+        elif kind == "dict" and d is not None:
+            dns["tbl"] = Dict(make_structure(f"Key{k}", d["key"]), make_structure(f"Value{k}", d["value"]),
+                              size=d["size"], lru=d["lru"])
+        classes.append(type(f"Derived{k}", (classes[0],), dns))
+    for m, fm in enumerate(fam.get("subs", [])):
+        sns = {f"s{m}_{j}": mp.globalVar(f) for j, f in enumerate(fm)}
+        sns["program"] = lambda self: None
+        subs.append(type(f"Sub{m}", (SubProgram,), sns))
+    return classes, subs, mp
+
+
+def percpu_expect(f, cpu):
+    """what a variable of format f reads on a CPU whose bytes are all cpu + 1 (wherever it lies in the value)"""
+    if f == "x":
+        return struct.unpack("q", bytes([cpu + 1]) * 8)[0] / 100000
+    r = struct.unpack(f, bytes([cpu + 1]) * struct.calcsize(f))
+    return r[0] if len(r) == 1 else r
+
+
+def do_fcall(K, fam, L, c):
+    """one call `[instance, op, ...]` on a live instance L = {e, subs, inst, fds}"""
+    kind, e, op = fam["map"], L["e"], c[1]
+    if kind in ("array", "percpu"):
+        vs = inst_fmts(fam, L["inst"])
+        if kind == "percpu" and op == "read":
+            e.amap.read()
+            return f"={len(e.amap.data)}"
+        holder, name, f = vs[c[2]]
+        holder = e if holder == "e" else L["subs"][holder]
+        if kind == "array":
+            if op == "set":
+                setattr(holder, name, sample(f))
+            else:
+                getattr(holder, name)
+            return "ok"
+        if e.amap.data is None:
+            e.amap.read()
+        got = getattr(holder, name)[c[3]]
+        return "ok" if got == percpu_expect(f, c[3]) else f"wrong-cpu-data {got!r}"
+    if kind == "hashvars":
+        if op == "load":
+            type(e).hmap.load(e)
+        elif op == "get":
+            getattr(e, f"hv{c[2]}")
+        else:
+            setattr(e, f"hv{c[2]}", c[3])
+        return "ok"
+    return do_call(K, e, {"kind": "dict"}, c[1:]) if op != "iter" else do_iter(K, e, c)
+
+
+def do_iter(K, e, c):
+    c[2:] = [len(K.maps[e.tbl.fd].entries)]
+    return "keys " + str(len([k for k in e.tbl]))
+
+
+def run_family(case):
+    """create the instances in the listed order, keep them alive, use them; per call the fds it touched"""
+    from ebpfcat.bpf import ProgType
+    fam = case["family"]
+    K = EmuKernel(case["possible"], case["online"])
+    outs, res, live, uses = [], [], [], []       # uses: (instance, first log entry, one past the last)
+
+    def attempt(f, owner):
+        mark = len(K.log)
+        try:
+            r = f()
+        except Overrun:
+            outs.append(show_calls(K.log[mark:]) + "OVERRUN")
+            res.append("overrun")
+            uses.append((owner, mark, len(K.log)))
+            return False
+        except Exception as ex:
+            r = exc_name(ex)
+        outs.append(show_calls(K.log[mark:]) + (r if r.startswith("=") else ""))
+        res.append(r)
+        uses.append((owner, mark, len(K.log)))
+        return True
+
+    def create(inst):
+        mark = len(K.created)
+        ss = [subs[m]() for m in inst["subs"]]
+        e = classes[inst["cls"]](ProgType.XDP, "GPL", subprograms=ss)
+        fds = [fd for fd, *_ in K.created[mark:] if fd is not None]
+        live.append({"e": e, "subs": ss, "inst": inst, "fds": fds})
+        for fd in fds:                      # environment: every CPU has written its own number everywhere
+            m = K.maps[fd]
+            if m.type == T_PERCPU_ARRAY:
+                for cpu in range(m.ncpu):
+                    m.percpu[cpu][0][:] = bytes([cpu + 1]) * m.vs
+
+    def load(i):
+        return attempt(lambda: live[i]["e"].load() and "ok" or "ok", i)
+
+    with emulated(K):
+        try:
+            classes, subs, mp = build_family(fam)
+            for inst in case["instances"]:
+                create(inst)
+        except Overrun:
+            outs.append("OVERRUN")
+            return K, geo_text(K), outs, res, live, uses
+        except Exception as ex:
+            outs.append("setup:" + exc_name(ex))
+            return K, geo_text(K), outs, res, live, uses
+        for i in range(len(live)):
+            if not load(i):
+                return K, geo_text(K), outs, res, live, uses
+        for c in case["calls"]:
+            if c[0] == "new":               # a further instance while the earlier ones are in use
+                try:
+                    create(c[1])
+                except Overrun:
+                    outs.append("OVERRUN")
+                    break
+                except Exception as ex:
+                    outs.append("setup:" + exc_name(ex))
+                    break
+                if not load(len(live) - 1):
+                    break
+            elif not attempt(lambda: do_fcall(K, fam, live[c[0]], c), c[0]):
+                break
+    return K, geo_text(K), outs, res, live, uses
+
+
+def declared_geometry(fam, inst, possible):
+    """(type, key_size, value_size, bytes one lookup/update transfers) of the map instance `inst` owns, from the
+    declaration alone (struct sizes; 'x' is 8 bytes); None: nothing declared, no map"""
+    kind = fam["map"]
+    size = lambda f: 8 if f == "x" else struct.calcsize(f)
+    if kind in ("array", "percpu"):
+        n = sum(size(f) for _, _, f in inst_fmts(fam, inst))
+        vs = (n + 7) // 8 * 8
+        if not vs:
+            return None
+        return (T_ARRAY, 4, vs, vs) if kind == "array" else (T_PERCPU_ARRAY, 4, vs, vs * possible)
+    if kind == "hashvars":
+        return (T_HASH, 1, 8, 8)
+    d = inst_dict(fam, inst)
+    ks, vs = sum(size(f) for f in d["key"]), sum(size(f) for f in d["value"])
+    return (T_LRU_HASH if d["lru"] else T_HASH, ks, vs, vs)
+
+
+def family_oracle(ctx, case, K, res, live, uses):
+    fam = case["family"]
+    for i, L in enumerate(live):
+        want = declared_geometry(fam, L["inst"], case["possible"])
+        got = [(K.maps[fd].type, K.maps[fd].ks, K.maps[fd].vs, K.maps[fd].value_bytes) for fd in L["fds"]]
+        ctx.require(got == ([] if want is None else [want]), "an instance's map does not have the geometry of its own declaration",
+                    case, f"instance {i}: created {got}, declared {want}", "instance-geometry")
+    for owner, a, b in uses:
+        want = declared_geometry(fam, live[owner]["inst"], case["possible"])
+        for cmd, fd, kl, vl, err in K.log[a:b]:
+            ctx.require(fd in live[owner]["fds"], "a call on one instance went to the map of another instance", case,
+                        f"instance {owner} owns fds {live[owner]['fds']}, cmd {cmd} used fd {fd}", "foreign-map")
+            if want is None:
+                continue
+            t, ks, vs, transfer = want
+            okk = kl is None and cmd == 4 or (kl is not None and kl >= ks)
+            okv = True if cmd == 3 else vl >= (ks if cmd == 4 else transfer)
+            ctx.require(okk and okv, "buffer shorter than the declared geometry of the instance's own map", case,
+                        f"instance {owner}: cmd {cmd} key {kl} value {vl}, declared key {ks} transfer {transfer}", "overrun")
+    bad = [r for r in res if r.startswith("wrong-cpu-data")]
+    ctx.require(not bad, "a per-CPU variable read for CPU c did not return CPU c's bytes (stride of another instance's map)", case,
+                bad[:2], "percpu-stride")
+
+
+def gen_dictgeo(rng):
+    return {"key": gen_packed(rng, 1, 4), "value": gen_packed(rng, 1, 5), "size": rng.choice([1, 2, 3, 5, 31]), "lru": rng.random() < 0.2}
+
+
+def gen_family(rng):
+    kind = rng.choice(["array", "percpu", "percpu", "percpu", "hashvars", "dict", "dict"])
+    possible = rng.choice([1, 2, 3, 4, 5, 8, 16, 17, 64, 130])
+    case = {"possible": possible, "online": rng.choice([possible, possible, max(1, possible // 2), 1])}
+    ninst = rng.randint(2, 5)
+    if kind in ("array", "percpu"):
+        fam = {"map": kind, "base": gen_fmts(rng, 0, 3), "derived": [gen_fmts(rng, 1, 4) for _ in range(rng.randint(0, 2))],
+               "subs": [gen_fmts(rng, 1, 3) for _ in range(rng.randint(0, 2))]}
+        if not fam["derived"] and not fam["subs"] and rng.random() < 0.8:
+            fam[rng.choice(["derived", "subs"])].append(gen_fmts(rng, 1, 4))
+        insts = [{"cls": rng.randint(0, len(fam["derived"])),
+                  "subs": [rng.randrange(len(fam["subs"])) for _ in range(rng.randint(0, 2))] if fam["subs"] else []}
+                 for _ in range(ninst)]
+    elif kind == "hashvars":
+        vs = [[f, fmt_values(rng, f)] for f in gen_fmts(rng, 1, 6, multi=False)]
+        fam = {"map": kind, "base": vs, "derived": [None] * rng.randint(0, 2)}
+        insts = [{"cls": rng.randint(0, len(fam["derived"])), "subs": []} for _ in range(ninst)]
+    else:
+        fam = {"map": kind, "base": gen_dictgeo(rng),
+               "derived": [gen_dictgeo(rng) if rng.random() < 0.7 else None for _ in range(rng.randint(0, 2))]}
+        insts = [{"cls": rng.randint(0, len(fam["derived"])), "subs": []} for _ in range(ninst)]
+    n0 = ninst if rng.random() < 0.5 else rng.randint(1, ninst - 1)
+    alive, pending = insts[:n0], insts[n0:]
+    case["family"], case["instances"] = fam, list(alive)
+    calls, pools = [], {}
+    for _ in range(rng.randint(1, 14)):
+        if pending and rng.random() < 0.3:
+            alive.append(pending.pop(0))
+            calls.append(["new", alive[-1]])
+        else:
+            c = gen_fcall(rng, fam, alive, possible, pools)
+            if c:
+                calls.append(c)
+    for inst in pending:
+        alive.append(inst)
+        calls.append(["new", inst])
+        for _ in range(2):
+            c = gen_fcall(rng, fam, alive, possible, pools)
+            if c:
+                calls.append(c)
+    case["calls"] = calls
+    return case
+
+
+def gen_fcall(rng, fam, insts, possible, pools):
+    kind, i = fam["map"], rng.randrange(len(insts))
+    if kind in ("array", "percpu"):
+        vs = inst_fmts(fam, insts[i])
+        if kind == "percpu" and (not vs or rng.random() < 0.5):
+            return [i, "read"]
+        if vs and kind == "array":
+            return [i, rng.choice(["set", "get"]), rng.randrange(len(vs))]
+        return [i, "item", rng.randrange(len(vs)), rng.randrange(possible)] if vs else None
+    if kind == "hashvars":
+        j = rng.randrange(len(fam["base"]))
+        return ([i, "get", j] if rng.random() < 0.5 else
+                [i, "load"] if rng.random() < 0.1 else [i, "set", j, fmt_values(rng, fam["base"][j][0])])
+    d = inst_dict(fam, insts[i])
+    pool = pools.setdefault(i, [[fmt_values(rng, f) for f in d["key"]] for _ in range(rng.randint(1, 3))])
+    op = rng.choice(["setitem", "setitem", "getitem", "pop", "popd", "del", "iter"])
+    if op == "setitem":
+        return [i, op, rng.choice(pool), [fmt_values(rng, f) for f in d["value"]]]
+    return [i, op] if op == "iter" else [i, op, rng.choice(pool)]
+
+
+def scripted_families():
+    """the orders of creation around one per-CPU / array descriptor, each instance read afterwards"""
+    out = []
+    for kind in ("percpu", "array"):
+        fam = {"map": kind, "base": ["Q"], "derived": [["Q", "Q"]], "subs": [["H"], ["64I"]]}
+        shapes = [{"cls": 1, "subs": []}, {"cls": 0, "subs": []}, {"cls": 0, "subs": [0]}, {"cls": 0, "subs": [1, 0]}, {"cls": 1, "subs": [1]}]
+        for a in range(len(shapes)):
+            for b in range(len(shapes)):
+                insts = [shapes[a], shapes[b]]
+                if kind == "percpu":
+                    calls = [[0, "read"], [1, "read"], [0, "item", 0, 3], [1, "item", 0, 2], [0, "read"]]
+                else:
+                    calls = [[0, "set", 0], [1, "set", 0], [0, "get", 0], [1, "get", 0]]
+                out.append({"possible": 4, "online": 4, "family": fam, "instances": insts, "calls": calls})
+    fam = {"map": "percpu", "base": ["I"], "derived": [["Q", "5H"]], "subs": [["B"]]}
+    out.append({"possible": 3, "online": 3, "family": fam, "instances": [{"cls": 1, "subs": [0]}],
+                "calls": [[0, "read"], ["new", {"cls": 0, "subs": []}], [0, "read"], [0, "item", 2, 2], [1, "read"],
+                          ["new", {"cls": 1, "subs": [0, 0]}], [1, "read"], [1, "item", 0, 1], [2, "read"], [0, "read"]]})
+    fam = {"map": "percpu", "base": [], "derived": [["I"]], "subs": []}        # the instance created last declares nothing
+    out.append({"possible": 2, "online": 2, "family": fam, "instances": [{"cls": 1, "subs": []}, {"cls": 0, "subs": []}],
+                "calls": [[0, "read"], [1, "read"], [0, "item", 0, 1]]})
+    return out
+
+
 # ---- the property, evaluated by the emulated kernel (independent of the model) -----
 def oracle(ctx, case, K, outs):
     ctx.require(K.violation is None, "a bpf() map command was handed a buffer shorter than the kernel accesses", case,
@@ -756,25 +1082,40 @@ def run(ctx):
     cases = [gen(ctx.rng) for _ in range(ctx.n(4000, 60000))]
     cases.append({"possible": 4, "online": 4, "decl": {"kind": "hashvars", "vars": [["B", 1]] * 257},
                   "calls": [["load"], ["get", 0], ["get", 254], ["get", 255], ["set", 256, 1], ["set", 3, 9]]})
+    cases += scripted_families() + [gen_family(ctx.rng) for _ in range(ctx.n(2500, 40000))]
     impl = []
     for c in cases:
-        K, geo, outs, res = run_impl(c)
-        ctx.case(c, nontrivial=bool(K.log), kind=c["decl"]["kind"])
+        if "family" in c:
+            K, geo, outs, res, live, uses = run_family(c)
+            ctx.case(c, nontrivial=bool(K.log) and len(live) > 1, kind="family-" + c["family"]["map"])
+            shapes = {(L["inst"]["cls"], tuple(L["inst"]["subs"])) for L in live}
+            ctx.stats["family-distinct-shapes-%d" % min(len(shapes), 3)] += 1
+        else:
+            K, geo, outs, res = run_impl(c)
+            ctx.case(c, nontrivial=bool(K.log), kind=c["decl"]["kind"])
         for r in res:
             ctx.stats["outcome-" + ("read" if r.startswith("=") else r.split(" ")[0])] += 1
         for cmd, *_ in K.log:
             ctx.stats["cmd-" + CMD.get(cmd, str(cmd))] += 1
         oracle(ctx, c, K, outs)
+        if "family" in c:
+            family_oracle(ctx, c, K, res, live, uses)
         impl.append(geo + " | " + " ; ".join(outs))
     model = ctx.drive(DRIVER, cases, "map calls")
     if model is not None:
         for c, i, m in zip(cases, impl, model):
-            ctx.agree("commands, buffer lengths and geometry of " + c["decl"]["kind"], c, i, m)
+            ctx.agree("commands, buffer lengths and geometry of " + (c["decl"]["kind"] if "decl" in c else "family " + c["family"]["map"]),
+                      c, i, m)
     if not ctx.quick:
-        kernel_validation(ctx, cases[:400])
+        kernel_validation(ctx, [c for c in cases if "decl" in c][:400])
 
 
 def replay(ctx, case):
+    if "family" in case:
+        K, geo, outs, res, live, uses = run_family(case)
+        oracle(ctx, case, K, outs)
+        family_oracle(ctx, case, K, res, live, uses)
+        return {"geometry": geo, "calls": outs, "outcomes": res, "violation": K.violation}
     K, geo, outs, res = run_impl(case)
     oracle(ctx, case, K, outs)
     return {"geometry": geo, "calls": outs, "outcomes": res, "violation": K.violation}
@@ -785,7 +1126,10 @@ LEVEL_TEXT = ("Lean 4 proof over a hand-written model of every user-space map en
               "structure sizes, possible-CPU counts) and all API call sequences every issued bpf() map command passes key and value buffers at least as "
               "long as the geometry given to create_map (per-CPU: roundup8(value_size) x possible CPUs). Tied to /repo by exact correspondence of command, "
               "buffer lengths, geometry and mmap length with the real API driven under an emulated kernel that measures the Python buffer behind every "
-              "address, and by regenerating command numbers and the hash-variable geometry/read length into the proofs.")
+              "address, and by regenerating command numbers and the hash-variable geometry/read length into the proofs. Several live instances around one "
+              "shared (class-level) map descriptor: the model keeps the descriptor's size and what each instance stores for itself; for every family, creation "
+              "order and interleaving of uses the issued commands equal a stateless specification (runHist_eq_spec), so every command of an instance is "
+              "within and exactly of that instance's own geometry (C10_instances, use_calls_own); a read sized by the descriptor is refuted.")
 LEVEL_NOTE = ("trusted: Lean kernel + standard axioms; hand model validated by differential runs; the emulated kernel's reading of the uapi contract "
               "(which bytes a command accesses); a violation is shown under the emulated kernel because the real kernel silently overruns")
 TECHNIQUE = "Lean 4 case analysis per entry point, universally over formats and sizes + differential correspondence under an interposed bpf()"
